@@ -211,7 +211,17 @@ func (r *Recorder) Checkpoint() {
 }
 
 // Finish writes the result file named by VERIF_OUT (or stdout).
+// Finish writes the result. It is deferred by the harness mains: when it runs because the harness itself is
+// panicking (a bug of the harness, outside any library call it guards), the result is marked inconclusive - an
+// aborted run must never read as "held on what was observed" - and the panic goes on.
 func (r *Recorder) Finish() {
+	if p := recover(); p != nil {
+		r.mu.Lock()
+		r.res.Inconclusive = fmt.Sprintf("the harness panicked and stopped early (harness bug, not a verdict): %v", p)
+		r.write(true)
+		r.mu.Unlock()
+		panic(p)
+	}
 	r.mu.Lock()
 	defer r.mu.Unlock()
 	r.write(true)
